@@ -142,7 +142,18 @@ def g_psum(I, bag, t):
 
 def result_bag(I, name, env):
     src = env["bitstrings"]
-    return Bag(I, src.fields["keylen"], total=I.ctx.fresh("total", "int"), keys_ok=I.ctx.fresh("keys_ok", "bool"))
+    b = Bag(I, src.fields["keylen"], total=I.ctx.fresh("total", "int"), keys_ok=I.ctx.fresh("keys_ok", "bool"))
+    # ghost: this bag went through the readout-error model with these two rates
+    b.readout = (env.get("p_false_pos"), env.get("p_false_neg"))
+    return b
+
+
+def g_readout_applied(I, bag, p_false_pos, p_false_neg):
+    """the returned counts went through apply_measurement_errors with exactly the caller's two rates"""
+    r = getattr(bag, "readout", None)
+    if r is None:
+        return False
+    return ops.b_and(ops.equal(r[0], p_false_pos), ops.equal(r[1], p_false_neg))
 
 
 # =====================================================================================================
@@ -393,6 +404,7 @@ def register(reg, prop="C15"):
         return ops.b_and(ops.equal(slen(s), n),
                          (S(s.fn(j)) == z3.StringVal("1")) == BIT(S(outcomes.fn(k)), S(n) - 1 - j))
     G["sv_encoding"] = g_sv_encoding
+    G["readout_applied"] = g_readout_applied
 
     def sv_state(cls, module, matrix):
         def make(I, name):
@@ -476,7 +488,7 @@ def register(reg, prop="C15"):
             params={"self": mps_state, "num_shots": "int",
                     "one_state": (lambda v: lambda I, n: v)(one_state),
                     "p_false_pos": "real", "p_false_neg": "real"},
-            requires=["num_shots >= 0"],
+            requires=["num_shots >= 0", "self.dim == 2 or self.dim == 3"],      # qubits, or atoms with a leakage level
             raises={"NotImplementedError": "p_false_pos > 0 and self.dim > 2",
                     "AssertionError": "one_state not in [None, 'r', '1']"},
             raises_when={"NotImplementedError": "p_false_pos > 0 and self.dim > 2",
@@ -498,8 +510,12 @@ def register(reg, prop="C15"):
                                    " self.num_sites))"],
                         modifies=["bitstrings.total", "bitstrings.keys_ok"]),
             },
-            ensures=["result.total == num_shots", "result.keys_ok and result.keylen == self.num_sites"],
-            ensures_names=["total-count-is-num-shots", "every-key-has-one-character-per-site"],
+            ensures=["result.total == num_shots", "result.keys_ok and result.keylen == self.num_sites",
+                     # readout errors are applied (with the caller's rates) whenever one of the rates is non-zero,
+                     # for qubits and for 3-level atoms alike, and never otherwise
+                     "readout_applied(result, p_false_pos, p_false_neg) == (p_false_pos > 0 or p_false_neg > 0)"],
+            ensures_names=["total-count-is-num-shots", "every-key-has-one-character-per-site",
+                           "readout-errors-applied-iff-a-rate-is-non-zero"],
         ), callsite=False)
         targets.append(f"{MPSMOD}:{label}")
     return targets
